@@ -167,8 +167,8 @@ Proof. exact parse_u16_spec. Qed.
 (* The TLS connector services: the only name handed to the TLS library is the request's
    hostname (never an address, never with the port); the result is Ok iff the library accepts
    the name and the handshake verifies the peer for that name; a name the library rejects
-   gives InvalidInput without any handshake for rustls — and for OpenSSL the `expect` panics
-   (see notes/tls.md: into_ssl only fails for names with NUL or longer than 255 bytes). *)
+   gives InvalidInput without any handshake (for OpenSSL since the fix: commit 0777ede in /repo;
+   before it `expect` panicked for empty / over-long / NUL names, see notes/tls.md). *)
 Theorem C19_tls_name :
   forall (name_ok : tls_backend -> str -> bool) (handshake_ok : tls_backend -> Z -> str -> bool)
          (b : tls_backend) (req : str) (conn : Z) evs r,
@@ -176,8 +176,7 @@ Theorem C19_tls_name :
   (forall n, In (ETlsName n) evs -> n = hostname req /\ ~ In 58 n)
   /\ (forall s, r = TOk s <->
         s = conn /\ name_ok b (hostname req) = true /\ handshake_ok b conn (hostname req) = true)
-  /\ (name_ok b (hostname req) = false ->
-      evs = [] /\ r = match b with Rustls => TErrInvalidInput | Openssl => TPanic end).
+  /\ (name_ok b (hostname req) = false -> evs = [] /\ r = TErrInvalidInput).
 Proof. exact tls_name. Qed.
 
 (* whole pipeline Connector + TlsConnector, for all oracles *)
